@@ -3,3 +3,5 @@
 package workerpool
 
 func verifSubmitWindow(*WorkerPool) {}
+
+func verifStartWindow(*WorkerPool) {}
